@@ -505,6 +505,11 @@ class Run:
         Kmn = {ik: np.zeros((self.ctrl[ik].shape[-2], n)) for ik in range(self.nk)}
         y = np.zeros(n)
         sig = np.zeros(n)
+        # rounding-level uncertainty of rows / labels / noises, judged against the size of the terms that are
+        # summed (a reaction whose counts cancel leaves pure rounding noise in its row and label)
+        dKmn = {ik: np.zeros(n) for ik in range(self.nk)}
+        dy = np.zeros(n)
+        dsig = np.zeros(n)
         for j, r in enumerate(rxns):
             items = []
             for st_, c in zip(r["structs"], r["counts"]):
@@ -512,25 +517,39 @@ class Run:
                     items.append(("s%d" % int(st_[0]), (st_[1][0], int(st_[1][1])), c))
                 else:
                     items.append(("s%d" % int(st_), None, c))
-            lab = 0.0
+            lab, labs = 0.0, 0.0
             if r["mode"] == 0:
                 for sid, orb, c in items:
                     if orb is None:
-                        lab += c * self.mod.refs(sid)[0]
+                        t = c * self.mod.refs(sid)[0]
                     else:
                         o = [x for x in self.mod.sys[sid].orbs if tuple(x["key"]) == orb][0]
-                        lab += c * o["dval"]
+                        t = c * o["dval"]
+                    lab += t
+                    labs += abs(t)
             else:
                 unit = G.DEFAULT_UNIT if r.get("unit") is None else r["unit"]
                 lab += r["energy"] * unit
+                labs += abs(r["energy"] * unit)
                 for sid, orb, c in items:
                     lab -= c * self.mod.refs(sid)[1]
+                    labs += abs(c * self.mod.refs(sid)[1])
             for ik in xk + (ck if r["mode"] == 2 else []):
                 for sid, orb, c in items:
                     v, b = self.vec(ik, sid) if orb is None else self.dvec(ik, sid, orb)
                     Kmn[ik][:, j] += c * v
                     lab -= c * b
+                    s_ = self.mod.sys[sid]
+                    vmax = float(np.max(np.abs(self.vec(ik, sid)[0])))
+                    wsum = float(np.sum(np.abs(s_.wt[s_.cls != "B"]))) * 3.0
+                    if orb is None:
+                        dKmn[ik][j] += abs(c) * 1e-13 * vmax
+                        labs += abs(c) * (abs(b) + 1e-2 * wsum)
+                    else:   # derivative vectors agree to 1e-9 of (|d| + 1e-2 |k~|) by the store checks; rounding level 1e-12
+                        dKmn[ik][j] += abs(c) * 1e-12 * (float(np.max(np.abs(v))) + 1e-2 * vmax)
+                        labs += abs(c) * (abs(b) + 10 * wsum)
             y[j] = lab
+            dy[j] = 1e-13 * labs
             if r.get("noise") is not None:
                 s = r["noise"]
             elif r.get("noise_factor") is not None:
@@ -539,11 +558,15 @@ class Run:
                 s = case["default_noise"]
             if r.get("noise_rel_factor") is not None:
                 s = s + r["noise_rel_factor"] * abs(lab)
+                dsig[j] = r["noise_rel_factor"] * dy[j]
             if r.get("weight") is not None:
                 s = s / np.sqrt(r["weight"])
+                dsig[j] /= np.sqrt(r["weight"])
             sig[j] = s
         if noise_scale is not None:
             sig = sig * noise_scale
+            dsig = dsig * 0.0      # the ladder passes explicit noises
+        self._unc = {"dKmn": dKmn, "dy": dy, "dsig": dsig}
         return Kmn, y, sig
 
     def solve(self, Kmn, y, sig, x, smin):
@@ -581,11 +604,25 @@ class Run:
         s1, s2 = out
         ev = np.linalg.eigvalsh(s1["Kfull"])
         sol = dict(s1)
+        unc = self._unc
+        E = np.zeros((n, n))
+        for ik in range(self.nk):
+            E += np.outer(unc["dKmn"][ik], np.sum(np.abs(s1["A"][ik]), axis=0))
+        dKin = x0sq * float(np.max(E + E.T)) + float(np.max(2 * nfac * sig * unc["dsig"])) if n else 0.0
+        dyv = float(np.max(unc["dy"])) if n else 0.0
+        lam_min = float(max(ev[0], 1e-300))
+        ab = np.abs(s1["beta"])
+        afl = {}
+        for ik in range(self.nk):
+            iK = np.abs(np.linalg.inv(Kj[ik]))
+            afl[ik] = x0sq * (float(np.max(iK @ np.ones(len(iK)))) * float(unc["dKmn"][ik] @ ab)
+                              + float(np.max(np.abs(s1["A"][ik]))) * (dyv * n + dKin * float(np.sum(ab))) * n / lam_min)
         sol.update({"nvar": nvar, "y": y, "cond_mm": max(conds), "cond_K": float(ev[-1] / max(ev[0], 1e-300)),
                     "lam_min": float(max(ev[0], 1e-300)), "x0sq": x0sq, "Kmn": Kmn, "Kj": Kj, "n": n,
                     "normK": float(ev[-1]), "dKs": float(np.max(np.abs(s1["Kcov"] - s2["Kcov"]))),
                     # rounding-level uncertainty of the reaction covariance and of the forward quantities
-                    "dK": 100 * float(np.max(np.abs(s1["Kcov"] - s2["Kcov"]))) * n + 300 * U * n * float(ev[-1]),
+                    "dy": dyv, "dKmn": unc["dKmn"], "afl": afl,
+                    "dK": 100 * float(np.max(np.abs(s1["Kcov"] - s2["Kcov"]))) * n + 300 * U * n * float(ev[-1]) + dKin,
                     "dpred": 100 * float(np.max(np.abs(s1["Kcov"] @ s1["beta"] - s2["Kcov"] @ s2["beta"]))),
                     "dalpha": {ik: 100 * float(np.max(np.abs(s1["alpha"][ik] - s2["alpha"][ik]))) for ik in range(self.nk)}})
         return sol
@@ -607,7 +644,8 @@ class Run:
             pred_code += sol["Kmn"][ik].T @ alphas[ik]
         scale = max(float(np.max(np.abs(y))), float(np.max(np.abs(pred_model))), 1e-300)
         nb1 = float(np.sum(np.abs(beta)))
-        floor = sol["dpred"] + sol["dK"] * nb1
+        floor = sol["dpred"] + sol["dK"] * nb1 + sol["dy"] + sum(
+            float(np.max(sol["dKmn"][ik])) * float(np.sum(np.abs(alphas[ik]))) for ik in range(self.nk))
         ctx.measure("floor_over_1e-8_pred", floor / (1e-8 * scale))
         fr = floor / (1e-8 * scale)
         ctx.event("prediction_tolerance(relative): " + ("1e-8" if fr <= 1 else "<=1e-6" if fr <= 100 else "<=1e-4" if fr <= 1e4 else ">1e-4 (tiny noise / ill-conditioned)"))
@@ -621,31 +659,33 @@ class Run:
         # backward error, from the observables only: beta~ = (Sigma+eps)^-1 (y - prediction), then
         # (Kmm + eps) alpha_k = x0^2 Kmn_k beta~ must hold to rounding.  beta~ inherits |dK||beta|/min(noise var).
         bt = (y - pred_code) / sol["nvar"]
-        amp = (300 * U * n * sol["normK"] * float(np.linalg.norm(bt)) + 1e-14 * scale) / float(np.min(sol["nvar"]))
+        amp = (300 * U * n * sol["normK"] * float(np.linalg.norm(bt)) + 1e-14 * scale + floor) / float(np.min(sol["nvar"]))
         for ik in range(self.nk):
             Kj, Kmn = sol["Kj"][ik], sol["Kmn"][ik]
             lhs = Kj @ alphas[ik]
             rhs = sol["x0sq"] * (Kmn @ bt)
             mag = float(np.max(np.abs(Kj) @ np.abs(alphas[ik]))) + sol["x0sq"] * float(np.max(np.abs(Kmn) @ np.abs(bt)))
-            fl = sol["x0sq"] * float(np.max(np.sum(np.abs(Kmn), axis=1))) * amp
+            fl = sol["x0sq"] * (float(np.max(np.sum(np.abs(Kmn), axis=1))) * amp + float(sol["dKmn"][ik] @ np.abs(bt)))
             ctx.measure("backward_floor_over_1e-9", fl / (1e-9 * mag + 1e-300))
             ctx.close(lhs, rhs, ("linear_system_backward_error", tagx, self.mode_of(ik)), rtol=1e-9, atol=fl, scale=mag)
         # the same with the reaction weights the model stores (alpha_mol_): no amplification, sharp at any noise level
         bh = np.asarray(self.gp.alpha_mol_, dtype=float)
         ctx.check(bh.shape == (n,), ("alpha_mol_shape",))
         nbh = float(np.sum(np.abs(bh)))
-        ctx.close(sol["Kfull"] @ bh, y, ("reaction_system_backward_error", tagx, modes), rtol=1e-9, atol=sol["dK"] * nbh,
+        ctx.close(sol["Kfull"] @ bh, y, ("reaction_system_backward_error", tagx, modes), rtol=1e-9,
+                  atol=sol["dK"] * nbh + sol["dy"],
                   scale=float(np.max(np.abs(sol["Kfull"]) @ np.abs(bh))) + scale)
         for ik in range(self.nk):
             Kj, Kmn = sol["Kj"][ik], sol["Kmn"][ik]
             mag = float(np.max(np.abs(Kj) @ np.abs(alphas[ik]))) + sol["x0sq"] * float(np.max(np.abs(Kmn) @ np.abs(bh)))
             ctx.close(Kj @ alphas[ik], sol["x0sq"] * (Kmn @ bh), ("control_system_backward_error", tagx, self.mode_of(ik)),
-                      rtol=1e-9, scale=mag)
+                      rtol=1e-9, atol=sol["x0sq"] * float(sol["dKmn"][ik] @ np.abs(bh)), scale=mag)
         if sol["cond_mm"] <= 1e8:
             for ik in range(self.nk):
                 am = sol["alpha"][ik]
                 ctx.close(alphas[ik], am, ("alpha", tagx, self.mode_of(ik)), rtol=1e-8 * sol["cond_mm"],
-                          atol=sol["dalpha"][ik] + float(np.max(np.abs(sol["A"][ik]))) * sol["x0sq"] * sol["dK"] * nb1 / sol["lam_min"],
+                          atol=sol["dalpha"][ik] + sol["afl"][ik]
+                          + float(np.max(np.abs(sol["A"][ik]))) * sol["x0sq"] * sol["dK"] * nb1 / sol["lam_min"],
                           scale=float(np.max(np.abs(am))) + 1e-300, cond_mm=sol["cond_mm"], cond_K=sol["cond_K"])
         else:
             ctx.event("alpha_space_skipped_cond>1e8")
@@ -675,7 +715,7 @@ class Run:
         if self.lastalpha is not None and self.lastalpha[0] == key:
             for ik in range(self.nk):
                 ctx.close(alphas[ik], self.lastalpha[1][ik], ("readd_invariance", self.mode_of(ik)),
-                          rtol=1e-9 * max(1.0, sol["cond_mm"] * 1e-3), atol=2 * sol["dalpha"][ik],
+                          rtol=1e-9 * max(1.0, sol["cond_mm"] * 1e-3), atol=2 * (sol["dalpha"][ik] + sol["afl"][ik]),
                           scale=float(np.max(np.abs(alphas[ik]))) + 1e-300)
             ctx.event("readd_invariance_checked")
         self.lastalpha = (key, alphas)
@@ -727,7 +767,8 @@ class Run:
             assert abs(ref - want) <= 1e-7 * (abs(quad) + abs(logdet) + n), "oracle self-test (scipy vs eigen formula)"
             want = ref
         bl = V @ ((V.T @ y) / lam)
-        tol_floor = (xe[0] ** 2 * f["dK"] + 300 * U * n * float(lam[-1])) * (float(bl @ bl) + n / float(lam[0]))
+        tol_floor = (xe[0] ** 2 * f["dK"] + 300 * U * n * float(lam[-1])) * (float(bl @ bl) + n / float(lam[0])) \
+            + 2 * float(np.sum(np.abs(bl))) * f["dy"]
         ctx.measure("floor_over_1e-8_lik", tol_floor / (1e-8 * (abs(quad) + abs(logdet) + n)))
         ctx.close(got, want, ("likelihood", "default_args" if x is None else "x,sigma_min"), rtol=1e-8, atol=tol_floor,
                   scale=abs(quad) + abs(logdet) + n, cond=cnd)
@@ -757,7 +798,8 @@ class Run:
             pred = sum(sol["Kmn"][ik].T @ np.asarray(self.dk[ik].alpha) for ik in range(self.nk))
             res.append(float(np.max(np.abs(pred - y))))
             bound = float(np.max(sol["nvar"]) * np.max(np.abs(sol["beta"]))) * (1 + 1e-6) + sol["dpred"] + \
-                sol["dK"] * float(np.sum(np.abs(sol["beta"]))) + 1e-8 * float(np.max(np.abs(y)))
+                sol["dK"] * float(np.sum(np.abs(sol["beta"]))) + 1e-8 * float(np.max(np.abs(y))) + sol["dy"] + sum(
+                    float(np.max(sol["dKmn"][ik])) * float(np.sum(np.abs(self.dk[ik].alpha))) for ik in range(self.nk))
             ctx.check(res[-1] <= bound, ("residual_exceeds_noise_bound",), residual=res[-1], bound=bound, lam=lam)
         self.lastfit = None
         self.lastalpha = None
@@ -938,7 +980,7 @@ def final_fresh(case, ctx, run, root):
         a1 = np.asarray(run.dk[ik].alpha)
         a2 = np.asarray(r2.dk[ik].alpha)
         ctx.check(a1.shape == a2.shape, ("fresh_permuted", "shape"))
-        fl = 2 * sol["dalpha"][ik]
+        fl = 2 * (sol["dalpha"][ik] + sol["afl"][ik])
         ctx.close(a2, a1, ("fresh_permuted", run.mode_of(ik)), rtol=1e-9 * max(1.0, sol["cond_mm"] * 1e-3), atol=fl,
                   scale=float(np.max(np.abs(a1))) + 1e-300)
     ctx.event("fresh_permuted_checked")
